@@ -167,6 +167,8 @@ func (cr *c20Run) checkOnce() bool {
 	return true
 }
 
+var c20Watch *h.CallWatch
+
 func c20History(c *h.Ctx, id string, r *rand.Rand) {
 	c.Eval(1)
 	cr := &c20Run{c: c, id: id, handlers: map[string]enc.Name{}, dataWire: map[string][]byte{}, r: c.Rng(id + "/framing")}
@@ -251,7 +253,14 @@ func c20History(c *h.Ctx, id string, r *rand.Rand) {
 		}
 		return nm
 	}
+	if c20Watch == nil {
+		// an engine call that never returns (a lock left held) must not silently starve the run: a
+		// step of virtual-time history takes microseconds, 30 s of wall time mean it hangs
+		c20Watch = h.NewCallWatch(30 * time.Second)
+	}
+	defer c20Watch.End()
 	for step := 0; step < n && !cr.stop; step++ {
+		c20Watch.Begin(fmt.Sprintf("%s/step%d", id, step))
 		cr.fired, cr.called = nil, nil
 		switch k := r.Intn(100); {
 		case k < 34: // EXPRESS
